@@ -571,6 +571,38 @@ def repeat_case(target, nr):
     ev_fwd = step(lambda: [[p.energy(r) for r in rs] for p in pots])
     ev_back = step(lambda: [[p.energy(r) for r in reversed(rs)][::-1] for p in pots])
     ev_fresh = step(lambda: [[p.energy(r) for r in rs] for p in Configuration().read(io.StringIO(text)).potentials])
+    # forces after a force evaluation that failed (r = 0 and negative separations: 1/r forms raise there) equal those of a fresh object
+    def forces_after_failure():
+      out = []
+      for p in pots:
+        for bad_r in (0.0, -1.0):
+          try:
+            p.force(bad_r)
+          except Exception:  # noqa
+            pass
+        out.append([p.force(r) for r in rs])
+      return out
+    f_after = step(forces_after_failure)
+    f_fresh = step(lambda: [[p.force(r) for r in rs] for p in Configuration().read(io.StringIO(text)).potentials])
+    if target == "LAMMPS":
+      # a potential whose analytic derivative is undefined over part of its range (pow with a base that turns negative): whether or
+      # not a force was asked for there first, the forces elsewhere are the same
+      ptxt = "[Tabulation]\ntarget : LAMMPS\ncutoff : 2.5\nnr : 6\n\n[Pair]\nA-A : pow(as.polynomial 3.0 -1.0, as.constant 3.0)\nA-B : sum(as.sqrt 2.0, as.polynomial 1.0 1.0)\n"
+
+      def pow_forces(first_bad):
+        out = []
+        for p in Configuration().read(io.StringIO(ptxt)).potentials:
+          if first_bad:
+            for bad_r in (4.0, 3.0, 0.0):
+              try:
+                p.force(bad_r)
+              except Exception:  # noqa
+                pass
+          out.append([p.force(r) for r in (0.5, 1.0, 1.75, 2.5)])
+        return out
+      g_after, g_fresh = step(lambda: pow_forces(True)), step(lambda: pow_forces(False))
+    else:
+      g_after = g_fresh = None
     after = _defaults_state()
     res["paths"] += 6
     res["replays"] += 6
@@ -578,7 +610,9 @@ def repeat_case(target, nr):
               ("building the model a second time (another model in between)", b1, b2),
               ("building the model again after a same-shape, same-grid model with other numbers was built, written and dropped", b1, b3),
               ("evaluating the energies in descending instead of ascending order", ev_fwd, ev_back),
-              ("evaluating on a used instead of a fresh object", ev_fresh, ev_fwd)]
+              ("evaluating on a used instead of a fresh object", ev_fresh, ev_fwd),
+              ("a failed force evaluation (at r = 0) before the others", f_fresh, f_after),
+              ("a force evaluation where the analytic derivative is undefined before the others", g_fresh, g_after)]
     for what, x, y in checks:
       if x != y:
         detail = y if isinstance(y, str) and y.startswith("raised") else ""
